@@ -153,6 +153,26 @@ fn parse_args(args: &[&str]) -> Result<ParsedInfo, Box<dyn Error>> {
     })
 }
 
+#[cfg(unix)]
+fn device_of(metadata: &std::fs::Metadata) -> Option<u64> {
+    use std::os::unix::fs::MetadataExt;
+    Some(metadata.dev())
+}
+
+#[cfg(not(unix))]
+fn device_of(_metadata: &std::fs::Metadata) -> Option<u64> {
+    None
+}
+
+/// Whether `entry` lives on another file system than the one -xdev confines
+/// the walk to (`root_device`, `None` when -xdev is not in effect).
+fn is_on_other_device(root_device: Option<u64>, entry: &WalkEntry) -> bool {
+    match (root_device, entry.metadata().ok().and_then(device_of)) {
+        (Some(root), Some(device)) => root != device,
+        _ => false,
+    }
+}
+
 fn process_dir(
     dir: &str,
     config: &Config,
@@ -171,6 +191,12 @@ fn process_dir(
     }
 
     let mut ret = 0;
+    // The file system -xdev confines the walk to.
+    let root_device = if config.same_file_system {
+        std::fs::metadata(dir).ok().and_then(|m| device_of(&m))
+    } else {
+        None
+    };
 
     // Slightly yucky loop handling here :-(. See docs for
     // WalkDirIterator::skip_current_dir for explanation.
@@ -237,7 +263,13 @@ fn process_dir(
                 }
                 // -prune has no effect in depth-first order: the directory's
                 // contents have already been visited by the time it is evaluated.
-                if matcher_io.should_skip_current_dir() && !config.depth_first {
+                // Under -xdev WalkDir does not enter a directory on another
+                // file system; skipping "the current directory" would then
+                // leave the directory that contains it and lose its siblings.
+                if matcher_io.should_skip_current_dir()
+                    && !config.depth_first
+                    && !(entry.depth() > 0 && is_on_other_device(root_device, &entry))
+                {
                     it.skip_current_dir();
                 }
             }
